@@ -145,7 +145,8 @@ PAIRS = [('ok', 'ok'), ('ok', 'crash'), ('badjson', 'badjson'), ('form', 'ok'), 
          ('nocontent', 'ok'), ('inject_arg', 'ok'), ('ok', 'notmodified'), ('chunked_ok', 'badchunk'), ('form_fixed', 'form_fixed'), ('ok', 'resp_copy'),
          ('expires', 'resp_copy'), ('sess_mutate', 'sess_mutate'), ('form_fixed', 'form'), ('qs_reassign', 'qs_reassign'), ('urlinfo', 'ok'), ('ok', 'urlinfo'), ('api_404', 'notfound'),
          ('notfound', 'api_404'), ('api_item', 'urlinfo'), ('neg_cl', 'ok'), ('urlbuild', 'urlbuild'), ('urlbuild', 'typed'), ('ok', 'manyheaders'), ('manyheaders', 'ok'), ('auth', 'manyheaders'),
-         ('manyheaders', 'manyheaders')]
+         ('manyheaders', 'manyheaders'), ('emptyform', 'emptybody'), ('emptybody', 'emptyform'), ('emptyform', 'emptyform'), ('emptyform', 'ok'), ('upload_headers', 'upload_headers'),
+         ('upload_headers', 'form')]
 
 def _reqs():
     anyk = st.lists(st.tuples(st.sampled_from(S.KINDS), st.integers(0, 30)).map(list), min_size=2, max_size=3)
